@@ -645,3 +645,14 @@ def vector_draw(ex, st, fr, ins, args):
 @stub('(*golang.org/x/image/vector.Rasterizer).Reset')
 def vector_reset(ex, st, fr, ins, args):
     return None
+
+
+@stub('math/bits.Mul64')
+def bits_mul64(ex, st, fr, ins, args):
+    x, y = args
+    if isinstance(x, int) and isinstance(y, int):
+        p = (x & (2 ** 64 - 1)) * (y & (2 ** 64 - 1))
+        return Tup([p >> 64, p & (2 ** 64 - 1)])
+    X, Y = z3.ZeroExt(64, bv(x, 64)), z3.ZeroExt(64, bv(y, 64))
+    p = X * Y
+    return Tup([z3.Extract(127, 64, p), z3.Extract(63, 0, p)])
